@@ -166,9 +166,12 @@ var solvers = []solverSpec{
 	}},
 }
 
+// at most this many solver processes run at once (oversubscription turns proofs into timeouts)
+var procSem = make(chan struct{}, 14)
+
 // runSolvers races the solvers on one SMT file. First definite answer wins.
 func runSolvers(file string, timeoutS int, only []string) SolverResult {
-	ctx, cancel := context.WithTimeout(context.Background(), time.Duration(timeoutS+2)*time.Second)
+	ctx, cancel := context.WithCancel(context.Background())
 	defer cancel()
 	type res struct {
 		r SolverResult
@@ -189,9 +192,17 @@ func runSolvers(file string, timeoutS int, only []string) SolverResult {
 		}
 		n++
 		go func(s solverSpec) {
+			procSem <- struct{}{}
+			defer func() { <-procSem }()
+			if ctx.Err() != nil {
+				ch <- SolverResult{Solver: s.name, Status: "timeout"}
+				return
+			}
 			t0 := time.Now()
 			argv := s.argv(file, timeoutS)
-			cmd := exec.CommandContext(ctx, argv[0], argv[1:]...)
+			pctx, pcancel := context.WithTimeout(ctx, time.Duration(timeoutS+2)*time.Second)
+			defer pcancel()
+			cmd := exec.CommandContext(pctx, argv[0], argv[1:]...)
 			var out bytes.Buffer
 			cmd.Stdout = &out
 			cmd.Stderr = &out
@@ -204,7 +215,7 @@ func runSolvers(file string, timeoutS int, only []string) SolverResult {
 			case "timeout":
 				r.Status = "timeout"
 			default:
-				if ctx.Err() != nil {
+				if pctx.Err() != nil {
 					r.Status = "timeout"
 				} else {
 					r.Status = "error"
@@ -381,4 +392,42 @@ func writeScratch(name, content string) string {
 	p := filepath.Join(scratch(), name)
 	os.WriteFile(p, []byte(content), 0o644)
 	return p
+}
+
+// constant folding helpers for 64-bit literals
+func lit64(t string) (uint64, bool) {
+	if len(t) == 18 && strings.HasPrefix(t, "#x") {
+		var u uint64
+		if _, err := fmt.Sscanf(t[2:], "%x", &u); err == nil {
+			return u, true
+		}
+	}
+	return 0, false
+}
+
+func bvadd64(a, b string) string {
+	x, ok1 := lit64(a)
+	y, ok2 := lit64(b)
+	if ok1 && ok2 {
+		return bvLit(x+y, 64)
+	}
+	if ok1 && x == 0 {
+		return b
+	}
+	if ok2 && y == 0 {
+		return a
+	}
+	return sx("bvadd", a, b)
+}
+
+func bvsub64(a, b string) string {
+	x, ok1 := lit64(a)
+	y, ok2 := lit64(b)
+	if ok1 && ok2 {
+		return bvLit(x-y, 64)
+	}
+	if ok2 && y == 0 {
+		return a
+	}
+	return sx("bvsub", a, b)
 }
